@@ -274,3 +274,57 @@ def rule_quantifier_kind(db: ProgramDB) -> List[Instance]:
     if n == 0:
         raise AnalysisError("select_one_or_select_many_or_infer: result assignments not found")
     return out
+
+
+# ---------------------------------------------------------------------------------- FAILURE-CTOR-TOTAL
+def rule_failure_ctor_total(db: ProgramDB) -> List[Instance]:
+    """`the` reports 'two solutions' / 'no solution' by raising the package's own exception types.  What leaves evaluate() is that
+    exception only if constructing it cannot fail first: the constructors do nothing with the rows they are given that can raise
+    on a well-formed row - no keyed lookup (two rows of one evaluation need not have the same keys: a row replayed from a
+    result cache carries the variables, a row evaluated live also the sub-expressions), no next(), no assert / raise."""
+    out = []
+    n = 0
+    for c in sorted(db.classes.values(), key=lambda k: k.qualname):
+        if c.module != "failures":
+            continue
+        init = c.methods.get("__init__")
+        if init is None or init.cls is not c:
+            continue
+        n += 1
+        a = init.node.args
+        params = {x.arg for x in a.posonlyargs + a.args + a.kwonlyargs} - {"self"}
+        derived = set(params)
+        changed = True
+        while changed:
+            changed = False
+            for x in own_nodes(init.node):
+                tgt = None
+                if isinstance(x, (ast.For, ast.comprehension)):
+                    src, tgt = x.iter, x.target
+                elif isinstance(x, ast.Assign) and len(x.targets) == 1:
+                    src, tgt = x.value, x.targets[0]
+                if tgt is None:
+                    continue
+                if any(isinstance(y, ast.Name) and y.id in derived for y in ast.walk(src)):
+                    for y in ast.walk(tgt):
+                        if isinstance(y, ast.Name) and y.id not in derived:
+                            derived.add(y.id)
+                            changed = True
+        bad = None
+        for x in own_nodes(init.node):
+            if isinstance(x, ast.Subscript) and isinstance(x.ctx, ast.Load) and any(isinstance(y, ast.Name) and y.id in derived for y in ast.walk(x.value)):
+                bad = (x, "a keyed lookup")
+            elif isinstance(x, ast.Call) and dotted(x.func) == "next" and len(x.args) < 2:
+                bad = (x, "next() without a default")
+            elif isinstance(x, (ast.Raise, ast.Assert)):
+                bad = (x, "a raise / assert")
+            if bad:
+                break
+        out.append(inst("FAILURE-CTOR-TOTAL", VIOLATION if bad else HOLDS, init, f"{c.name}.__init__[cannot fail]",
+                        "formats its arguments, nothing that can raise on a well-formed row" if not bad else
+                        f"`{unparse(bad[0])[:70]}` is {bad[1]} on what the(...) hands to the constructor: when it raises (a second solution replayed from a result "
+                        f"cache has other keys than the first), a KeyError / StopIteration leaves evaluate() instead of {c.name}", line=bad[0].lineno if bad else init.lineno))
+    if n < 2:
+        raise AnalysisError("the exception types of the failures module were not found")
+    return out
+
